@@ -35,13 +35,15 @@ open PV.Nets PV.SConn
 
 /-! ## 0. the hypotheses as the driver evaluates them on every design of the correspondence run -/
 
-/-- `valid 1`, `nodup 1`, `cyclic 0` in a reply of `pv_sconn` establish `ValidOrder`, `StmtsNodup`, `¬ HasCycle` -/
+/-- `valid 1`, `nodup 1`, `netsok 1`, `cyclic 0` in a reply of `pv_sconn` establish `ValidOrder`, `StmtsNodup`, `NetsOk`,
+`¬ HasCycle`; and a valid order always exists -/
 theorem preconditions_sound {H : Hier} {nb : Sig → List Sig} :
     (validOrderB H nb = true → (∀ u, u ∉ nodesOf H.edges → nb u = []) → ValidOrder H nb) ∧
     (stmtsNodupB H = true → StmtsNodup H) ∧
+    (netsOkB H = true → NetsOk H) ∧
     (cyc H.edges = false → ¬ HasCycle H.edges) ∧
     ValidOrder H H.nbrs :=
-  ⟨validOrderB_sound, stmtsNodupB_sound,
+  ⟨validOrderB_sound, stmtsNodupB_sound, netsOkB_sound,
     fun (h : cyc H.edges = false) (hc : HasCycle H.edges) => (by rw [(cyc_iff _).mpr hc] at h; cases h), nbrs_valid H⟩
 
 /-! ## 1. the traversal -/
@@ -328,7 +330,16 @@ example : accepted exPass exPass.nbrs = true := by decide
 example : emit exPass exPass.nbrs 1 = .ok [(0, 1)] ∧ emit exPass exPass.nbrs 2 = .ok [(1, 2)] ∧
     emit exPass exPass.nbrs 3 = .ok [(2, 3)] := by decide
 example : assigns exPass exPass.nbrs = [(1, (0, 1)), (2, (1, 2)), (3, (2, 3))] := by decide
-example : validOrderB exPass exPass.nbrs = true ∧ stmtsNodupB exPass = true ∧ exPass.wf = true := by decide
+example : validOrderB exPass exPass.nbrs = true ∧ stmtsNodupB exPass = true ∧ netsOkB exPass = true ∧ exPass.wf = true ∧
+    cyc exPass.edges = false := by decide
+
+/-- the hypotheses of `emit_exact` / `single_driver` / `members_equal_writer` hold together on `exPass`, and the conclusion of
+`single_driver` is the expected one: signal 3 (`leaf.w`) has exactly one driving assign, signal 0 (`top.in_`, the writer) none -/
+example : ((assigns exPass exPass.nbrs).map (fun a => a.2.2)).count 3 = 1 ∧
+    ((assigns exPass exPass.nbrs).map (fun a => a.2.2)).count 0 = 0 := by
+  have h := single_driver (nbrs_valid exPass) (netsOkB_sound (by decide)) (stmtsNodupB_sound (by decide))
+    (by decide : accepted exPass exPass.nbrs = true) (0, [0, 1, 2, 3]) (by decide)
+  exact ⟨h.1 3 (by decide) (by decide), h.2⟩
 
 /-- a parent connecting two ports of one child (`s.c.in_ //= s.c.out`; `s.c.out` is the writer): filed under the child,
 the parent's `emit` fails, the child emits nothing for it -/
